@@ -326,7 +326,7 @@ Proof.
   pose proof (split_number_digits _ _ _ _ _ Hs) as HD.
   destruct (sig_digits (ip ++ fp)) as [ds tz] eqn:Hsig.
   destruct ds as [|d ds'].
-  - injection Hp as <-. exists [48; 46; 48]%N. split; vm_compute; reflexivity.
+  - destruct neg; [discriminate Hp|]. injection Hp as <-. exists [48; 46; 48]%N. split; vm_compute; reflexivity.
   - assert (Hg : good (d :: ds')) by (apply (sig_digits_is_good _ _ _ HD Hsig); discriminate).
     cbv zeta in Hp. set (ds := d :: ds') in *. set (zexp := Z.of_nat tz + ex - Z.of_nat (length fp)) in *.
     destruct (Z.leb_spec 310 (Z.of_nat (length ds) + zexp)) as [|H310]; [discriminate Hp|].
